@@ -17,19 +17,27 @@ struct Case {
     recv_impl: Recv,
     depth: usize,
     placeholders: bool,
+    /// the first derived level re-declares slot `v` with another convention than the base
+    derived_differs: bool,
 }
 
 fn cases() -> Vec<Case> {
     let mut out = vec![];
     for cc_v in CCS {
-        for recv_v in [Recv::Const, Recv::Mut] {
+        for recv_v in [Recv::None, Recv::Const, Recv::Mut] {
             for cc_impl in CCS {
                 for recv_impl in [Recv::None, Recv::Const, Recv::Mut] {
                     for depth in 1..=3 {
                         for placeholders in [false, true] {
-                            out.push(Case { cc_v: *cc_v, recv_v, cc_impl: *cc_impl, recv_impl, depth, placeholders });
+                            out.push(Case { cc_v: *cc_v, recv_v, cc_impl: *cc_impl, recv_impl, depth, placeholders, derived_differs: false });
                         }
                     }
+                }
+            }
+            // a derived level that declares the inherited slot with a different convention
+            for depth in 2..=3 {
+                for placeholders in [false, true] {
+                    out.push(Case { cc_v: *cc_v, recv_v, cc_impl: None, recv_impl: Recv::Const, depth, placeholders, derived_differs: true });
                 }
             }
         }
@@ -49,6 +57,11 @@ fn vfuncs(c: &Case, level: usize) -> Vec<FuncS> {
     let mut v = FuncS::new("v");
     v.recv = c.recv_v;
     v.cc = c.cc_v.map(String::from);
+    if c.derived_differs && level >= 1 {
+        // any convention other than the base's effective one
+        let base = expected(c.cc_v, c.recv_v);
+        v.cc = Some(if base == "stdcall" { "fastcall".to_string() } else { "stdcall".to_string() });
+    }
     v.args = vec![("a".into(), MTy::b("u32"))];
     v.ret = Some(MTy::b("u32"));
     let mut w = FuncS::new("w");
@@ -112,7 +125,8 @@ fn judge(c: &Case, text: &str) -> Option<(String, String)> {
         };
         let mut wants = vec![("v".to_string(), ev.clone()), ("w".to_string(), "thiscall".to_string())];
         for l in 1..=level {
-            wants.push((format!("d{l}"), ev.clone()));
+            // the functions added at each level always take &self
+            wants.push((format!("d{l}"), expected(c.cc_v, Recv::Const)));
         }
         if c.placeholders {
             wants.push(("_vfunc_1".to_string(), "thiscall".to_string()));
@@ -163,10 +177,11 @@ pub fn run(tier: &str, only: Option<&Value>) -> i32 {
             let c = &all[idxs[j]];
             let input = input_of(c);
             let v = pipe::run(&input, ps);
-            let invalid = [c.cc_v, c.cc_impl].iter().any(|cc| cc.is_some_and(|x| !VALID.contains(&x)));
+            let invalid = [c.cc_v, c.cc_impl].iter().any(|cc| cc.is_some_and(|x| !VALID.contains(&x))) || c.derived_differs;
             let viol = match &v {
                 pipe::Verdict::Panic(p) => Some(("panic".to_string(), p.clone())),
                 pipe::Verdict::ParseErr(..) => Some(("harness_parse_error".to_string(), v.err_text())),
+                pipe::Verdict::Ok(_) if c.derived_differs && [c.cc_v].iter().all(|cc| cc.map_or(true, |x| VALID.contains(&x))) => Some(("convention_differs_between_base_and_derived_vftable".to_string(), "a derived vftable re-declares an inherited slot with another calling convention and is accepted".to_string())),
                 pipe::Verdict::Ok(_) if invalid => Some(("unknown_convention_accepted".to_string(), "an unknown calling convention name was accepted".to_string())),
                 pipe::Verdict::Err(e) if !invalid => Some(("valid_input_rejected".to_string(), e.clone())),
                 pipe::Verdict::Err(_) => None,
@@ -186,7 +201,7 @@ pub fn run(tier: &str, only: Option<&Value>) -> i32 {
             rep.distinct_str(&format!("{:?}", c));
             if let Some((key, detail)) = viol {
                 rep.violation(Violation { key: key.clone(), features: vec![], input: input.clone(), ps, detail: detail.clone(), locator: json!({"space": "conventions", "index": idxs[j], "ps": ps}) });
-            } else if let (4, Some(b)) = (ps, v.built()) {
+            } else if let (4, Some(b), true) = (ps, v.built(), c.recv_v != Recv::None) {
                 rcases.push(RCase::new(b.files.clone()));
                 rown.push(j);
             }
